@@ -90,6 +90,8 @@ ContextData(defs, i, kw, prov, inst) ==
                     [] d.k = "clist"   -> [err |-> "", v |-> [k |-> "l", v |-> <<d.v \o "1", d.v \o "2">>]]
                     [] d.k = "kwarg"   -> [err |-> "", v |-> IF HasB(kw, d.a) THEN GetB(kw, d.a) ELSE Str("")]
                     [] d.k = "id"      -> [err |-> "", v |-> Str(ToString(inst))]      \* self.id
+                    \* x = self: the template reads {{ x.id }} while it is being rendered
+                    [] d.k = "self"    -> [err |-> "", v |-> [k |-> "d", v |-> << <<"id", Str(ToString(inst))>> >>]]
                     [] d.k = "inject"  -> IF inj.k # "u" THEN [err |-> "", v |-> inj]
                                           ELSE IF d.dflt # "" THEN [err |-> "", v |-> Str(d.dflt)]
                                           ELSE [err |-> "KeyError", v |-> Undef]
@@ -226,7 +228,11 @@ EvalComp(n, env, fuel) ==
       fills == CASE n.body = "none"  -> <<>>
                  [] n.body = "impl"  -> IF n.a = <<>> THEN <<>>
                                         ELSE << <<"default", Closure(n.a, env, <<>>, "", "")>> >>
-                 [] n.body = "fills" -> Collect(n.a, 1, env, <<>>)
+                 [] n.body = "fills" ->
+                      \* documented (resolve_fills): "If no fill nodes are found, then the content is treated as
+                      \* default slot content" - the body as it stands, fill tags included
+                      LET cf == Collect(n.a, 1, env, <<>>) IN
+                      IF cf = <<>> THEN << <<"default", Closure(n.a, env, <<>>, "", "")>> >> ELSE cf
       \* which render queue the new instance joins: its context names a parent component -> the
       \* parent's root; otherwise it is a root of its own
       root  == IF env.ckey THEN env.croot ELSE inst
@@ -249,7 +255,7 @@ EvalComp(n, env, fuel) ==
                            !.immediate = FALSE, !.ckey = TRUE, !.croot = root,
                            !.queue = IF env.ckey THEN env.queue ELSE inst,
                            !.own = [has |-> TRUE, inst |-> inst, fills |-> fills2]]
-  IN IF n.body = "fills" /\ (fills = <<>> \/ ~NoDupNames(fills)) THEN Zone   \* body without any captured fill / duplicate names
+  IN IF n.body = "fills" /\ ~NoDupNames(fills) THEN Fail("TemplateSyntaxError")   \* documented: duplicate fill names
      ELSE IF cd.err # "" THEN Fail(cd.err)
      ELSE IF Dev(env, "NestedRootCallbackKeyError") /\ env.ckey /\ env.croot # env.queue THEN Fail("KeyError")
      ELSE LET r == Join(Res(<<>>, "", FALSE, << <<inst, n.c>> >>), EvalSeq(def.tpl, 1, env2, fuel - 1)) IN
@@ -303,6 +309,7 @@ EvalNode(n, env, fuel) ==
     [] n.t = "elem" -> LET r == EvalSeq(n.a, 1, env, fuel)
                            key == ToString(env.at) IN
                        [r EXCEPT !.tops = <<key>>, !.elems = << <<n.id, key>> >> \o @]
+    [] n.t = "fill" -> Fail("TemplateSyntaxError")       \* a {% fill %} rendered outside fill collection
     [] n.t = "slot" -> EvalSlot(n, env, fuel)
     [] n.t = "comp" -> EvalComp(n, env, fuel)
     [] n.t = "provide" ->
